@@ -159,3 +159,12 @@ def _equiv(self, args, kwargs, fr, node):
     if not sp.defined:
         self.define_spec(sp)
     return SV(d(a, b), TBool())
+
+
+@function_model('pyvc.contracts.raw_field')
+def _raw_field(self, args, kwargs, fr, node):
+    x, cname, fname = args
+    ci = self.ct.by_name[cname]
+    f = [f_ for f_ in ci.fields if f_.name == fname][0]
+    x = x if isinstance(x, SV) else self.sv(x)
+    return SV(self.ct.field(ci, fname, x.term), f.ty)
